@@ -272,6 +272,17 @@ def run(ctx):
             for a, b in (("a.com/?B=1&a=2", "a.com/?%42=1&a=2"), ("a.com/x?ref=FB", "a.com/x?ref=%46B"), ("a.com/Abc/Index.html", "a.com/%41bc/%49ndex.html"), ("a.com/x/b.AMP?Z=1", "a.com/x/b.%41MP?%5A=1")):
                 check_chain(ctx, fn, a, [("escape", b)], OPTSETS)
                 ctx.count("escaped-uppercase")
+        if ctx.shard == 0:
+            # per-domain irrelevant items composed with the host spellings a fingerprint ignores (any port, case, language label)
+            for u, items in (("https://www.youtube.com/results?search_query=cats", "t=42&si=abc&ab_channel=x&cbrd=1&ucbcb=1&hl=fr"), ("https://www.facebook.com/help/contact/123?a=1", "_rdr=1&_rdc=2&gl=us"),
+                             ("http://youtube.com/feed/trending?bp=6", "si=x"), ("http://facebook.com/legal/terms?z=1", "_rdr")):
+                sp = u.split("/", 3)
+                for hname, hv in (("port-any", sp[2] + ":8080"), ("port-any", sp[2] + ":443"), ("port-any", sp[2] + ":80"), ("case-any", sp[2].upper()), ("case-any", sp[2].title() + ":81"),
+                                  ("lang-xx", "fr." + sp[2].replace("www.", "")), ("userinfo", "me:pw@" + sp[2])):
+                    uv = sp[0] + "//" + hv + "/" + sp[3] + "&" + items
+                    check_chain(ctx, fn, u, [(hname + "+per-domain-item", uv)], OPTSETS[:2])
+                    check_chain(ctx, fn, u + "&" + items, [(hname, sp[0] + "//" + hv + "/" + sp[3])], OPTSETS[:2])
+                    ctx.count("per-domain-item-with-host-spelling")
         hosts = N.HOSTS[:5] + ["www.example.com", "blog.example.co.uk", "shop.example.com.au", "a.example.pvt.k12.ma.us", "facebook.com", "www.youtube.com", "twitter.com"]
         grid = list(itertools.product(hosts, N.PATHS[:8], N.QUERIES[:6], N.FRAGS[:3]))
         step = 1 if ctx.tier == "thorough" else 4
